@@ -1,5 +1,6 @@
 """Property -> check driver.  MANIFEST.json is generated from this table by bin/mkmanifest."""
 import p_piecestore
+import p_wire
 
 HOOK_COMMITS = ["ad8b203", "23d7fe8"]
 
@@ -9,7 +10,19 @@ _PS_NOTE = ("Trusted: TLC, the Go harness (gate scheduler, content PRF, projecti
             "1-2 abstract chunks per piece (x4 real chunks in the mmap geometry), 2-4 threads. Interleavings are those at "
             "the verifYield points (every place where ps.mu is not held inside an operation).")
 
+_B4 = "TLC-enumerated case table (TLA+ decision function over boundary classes) executed on the real code, outcomes checked by TLC against the specification's invariants"
+
 REGISTRY = {
+    "C04": {"run": p_wire.run_c04, "design": "DESIGN.md section 3 C04", "technique": _B4,
+            "level": "Framing.tla models decoding of one message as a state machine over abstract inputs; TLC checks Total/ExactlyFramed/NeverBeyond/"
+                     "Bounded on the model for the full cross product of classes, prints every case, the harness runs protocol.Read on a concrete "
+                     "stream for each (counting reader, allocation measurement, following frame) and TLC re-evaluates the invariants on the observed outcomes.",
+            "note": "Trusted: TLC, harness concretisation of classes into bytes, TotalAlloc measurement. Classes, not all byte strings."},
+    "C06": {"run": p_wire.run_c06, "design": "DESIGN.md section 3 C06", "technique": _B4,
+            "level": "Codec.tla is an independent token-level description of the wire format written from the BEPs; TLC enumerates ~2000 messages with "
+                     "boundary field values; for each, protocol.Write is compared with the independent encoding, protocol.Read must decode both back to "
+                     "the message, and concatenated streams are decoded through readers cut at every point.",
+            "note": "Trusted: TLC, the token expander and the independent bencode parser of the harness."},
     "C01": {"run": p_piecestore.run, "design": "DESIGN.md section 3 C01",
             "technique": "TLC exhaustive model checking of PieceStore.tla + gated-goroutine replay of TLC behaviours on tor/piece + TLC trace validation of the recorded logs",
             "level": "PieceStore.tla is model-checked exhaustively (all interleavings of 2-4 operations over every initial condition); "
